@@ -5,6 +5,7 @@ package checks
 import (
 	"context"
 	"github.com/compose-spec/compose-go/v2/interpolation"
+	"github.com/compose-spec/compose-go/v2/tree"
 	"github.com/compose-spec/compose-go/v2/types"
 	"gopkg.in/yaml.v3"
 
@@ -274,6 +275,7 @@ func C08(c *core.Ctx) {
 		return
 	}
 	c08Shape(c)
+	defer c08Shape(c) // again after all the loads of this check: what they needed is no business of a later caller
 	tps, err := schemaTypedPaths()
 	if err != nil || len(tps) < 20 {
 		c.Inconclusive(fmt.Sprintf("cannot derive typed paths from the schema: %v (%d)", err, len(tps)))
@@ -466,6 +468,19 @@ func c08Shape(c *core.Ctx) {
 	docs := []string{
 		`{"services":{"a":{"image":"i","command":[],"dns":[],"labels":{},"ports":[{"target":80,"published":"8080"}],"x-n":[[],{"k":[]},[[1,2.5,true,null]]]}},"volumes":{},"x-top":[]}`,
 		`{"services":{"a":{"image":"i","entrypoint":["sh","-c",""],"environment":{"A":null,"B":"","C":"c"},"cpus":0.5,"scale":0,"init":false,"read_only":true}}}`,
+	}
+	// the casts applied are those the caller names, for the paths the caller names
+	{
+		in := map[string]interface{}{"services": map[string]interface{}{"a": map[string]interface{}{"privileged": "${P}", "scale": "${N}", "init": "${P}", "read_only": "no", "tty": "${P}", "oom_kill_disable": "${P}"}}}
+		out, err := interpolation.Interpolate(in, interpolation.Options{
+			LookupValue:     func(k string) (string, bool) { v, ok := map[string]string{"P": "yes", "N": "3"}[k]; return v, ok },
+			TypeCastMapping: map[tree.Path]interpolation.Cast{tree.NewPath("services", tree.PathMatchAll, "scale"): func(v string) (interface{}, error) { return strconv.Atoi(v) }},
+		})
+		got, _ := json.Marshal(out)
+		c.Eval("own-cast-mapping", true)
+		if want := `{"services":{"a":{"init":"yes","oom_kill_disable":"yes","privileged":"yes","read_only":"no","scale":3,"tty":"yes"}}}`; err != nil || string(got) != want {
+			c.Report(core.Finding{Sig: "cast-not-requested", Detail: fmt.Sprintf("interpolation.Interpolate with a cast for services.*.scale only gives %s (%v); expected %s", got, err, want), Replay: map[string]interface{}{"document": in}})
+		}
 	}
 	for _, d := range docs {
 		var in map[string]interface{}
